@@ -551,7 +551,7 @@ fn what_name(w: u16) -> String {
     }
 }
 
-fn copy_out(o: &E2Out) -> E2Out {
+pub fn copy_out(o: &E2Out) -> E2Out {
     E2Out {
         index: o.index,
         sub: None,
@@ -648,7 +648,9 @@ pub fn main_with(engine: &str, cases: &[Case]) {
     let _ = catch_unwind(|| std::panic::panic_any(fault::Injected { kind: fault::Kind::Clone, k: 0 }));
     let make = |idx: u64| -> (usize, u64, E2Config) {
         let case = (idx as usize) % cases.len();
-        let rs = case_seed(seed, engine, idx);
+        let mut ph = simcore::rng::Fnv::default();
+        ph.bytes(profile.as_bytes());
+        let rs = mix(&[case_seed(seed, engine, idx), ph.0]);
         let cfg = make_config(&profile, rs, thorough, cases[case].desc.systems.len());
         (case, rs, cfg)
     };
